@@ -89,7 +89,9 @@ class SendWorld(World):
                 if mode is None:
                     continue
                 methods[hook] = self._mk_hook(hook, mi, mode, bool(mw.get("replace")))
-            b.add_middlewares(type(f"SMW{mi}", (TaskiqMiddleware,), methods)())
+            from mc.recv_world import make_mw_class
+
+            b.add_middlewares(make_mw_class(f"SMW{mi}", TaskiqMiddleware, methods, mw.get("inherit"))())
         self.shared = self.task.kicker().with_labels(shared="1") if self.sc.get("kicker") == "shared" else None
 
     def _mk_hook(self, hook: str, mi: int, mode: str, rep: bool) -> Any:
